@@ -84,11 +84,11 @@ func (r *remoteHTTPProxyCache) UploadFile(item backendproxy.UploadReq) {
 		return
 	}
 	_, err = io.Copy(io.Discard, rsp.Body)
+	_ = rsp.Body.Close()
 	if err != nil {
 		r.errorLogger.Printf("HTTP %s UPLOAD: %s", url, err.Error())
 		return
 	}
-	_ = rsp.Body.Close()
 
 	logResponse(r.accessLogger, "UPLOAD", rsp.StatusCode, url)
 }
@@ -175,6 +175,7 @@ func (r *remoteHTTPProxyCache) Get(ctx context.Context, kind cache.EntryKind, ha
 	logResponse(r.accessLogger, "DOWNLOAD", rsp.StatusCode, url)
 
 	if rsp.StatusCode == http.StatusNotFound {
+		_ = rsp.Body.Close()
 		cacheMisses.Inc()
 		return nil, -1, nil
 	}
@@ -184,6 +185,7 @@ func (r *remoteHTTPProxyCache) Get(ctx context.Context, kind cache.EntryKind, ha
 		// forward up to 1 KiB.
 		var errorBytes []byte
 		errorBytes, err = io.ReadAll(io.LimitReader(rsp.Body, 1024))
+		_ = rsp.Body.Close()
 		var errorText string
 		if err == nil {
 			errorText = string(errorBytes)
@@ -203,6 +205,7 @@ func (r *remoteHTTPProxyCache) Get(ctx context.Context, kind cache.EntryKind, ha
 
 	sizeBytesStr := rsp.Header.Get("Content-Length")
 	if sizeBytesStr == "" {
+		_ = rsp.Body.Close()
 		err = errors.New("missing Content-Length header")
 		cacheMisses.Inc()
 		return nil, -1, err
@@ -210,6 +213,7 @@ func (r *remoteHTTPProxyCache) Get(ctx context.Context, kind cache.EntryKind, ha
 
 	sizeBytesInt, err := strconv.Atoi(sizeBytesStr)
 	if err != nil {
+		_ = rsp.Body.Close()
 		cacheMisses.Inc()
 		return nil, -1, err
 	}
